@@ -102,6 +102,20 @@ def run_unit(A, unit, rep, tier):
                 rep.fail("C03.b", norm_key("C03.b", f.qualname, u.stmt, x.stmt),
                          f"{f.qualname}: `{x.stmt}` can raise (missing key / index / element) after `{u.stmt}` already changed the content: the failed operation is not a no-op",
                          g.witness(g.path(u.id, [x.id])), g.label)
+        # (d) null is a legal stored value: the presence of a key must not be decided by comparing a lookup result with None
+        for n in top:
+            if n.kind == "branch":
+                c = n["cond"]
+                conds = list(c.args[1:]) if c.kind == "boolop" else [c]
+                for p_ in conds:
+                    if p_.kind == "not":
+                        p_ = p_.args[0]
+                    if p_.kind == "cmp" and p_.args[0] in ("is", "is not", "==", "!=") and Val("const", None) in (p_.args[1], p_.args[2]):
+                        other = p_.args[1] if p_.args[2] == Val("const", None) else p_.args[2]
+                        if other.kind == "call" and other.args[0] in ("get", "pop", "setdefault") and other.args[1] is not None and other.args[1].kind == "data" and len(other.args[2]) == 1:
+                            rep.fail("C03.d", norm_key("C03.d", f.qualname, n.stmt),
+                                     f"{f.qualname}: `{n.stmt}` decides whether a key is present by comparing the result of `{other.args[0]}` with None; a stored null is then treated as a missing key (built-in dict semantics differ)",
+                                     [n.where() + ": " + n.stmt], g.label)
         # (c) forwarding
         params = [p.arg for p in f.node.args.args][1:]
         opname = DUNDER_OP.get(name, name)
